@@ -8,6 +8,11 @@ HOOK_COMMITS = ["204cfe3", "2edc694", "e1d8638"]
 
 # id -> (category, technique, level text, level note, design ref)
 CHECKS = {
+ "C05": ("exploration",
+         "linearizability checking (porcupine) of client-boundary histories recorded from real concurrent Writer.Batch / Writer.Reader calls, against the abstract index as sequential model; schedules from seeded jitter at all seams and from scripted gates on the obsoletes computation (stale-root window)",
+         "Histories of 2..8 writers and 1..3 readers over <= 4 ids (safe and unsafe mode, memory and file-system directories, merges on) are recorded with call/return stamps from one atomic clock and a final read, and each is decided by porcupine: batches must take effect atomically in a real-time-respecting total order and every read must equal the state after a prefix. Gate scenarios force the window in which a batch computed its obsoletes against a root that a conflicting batch (or a persist / merge) has meanwhile replaced. Many short histories; checker time-outs are counted as inconclusive.",
+         "Trusts: porcupine v1.3.0; the 15-line sequential model; stamps taken at the client boundary.",
+         "DESIGN.md §2.7, §4 C05"),
  "C06": ("exploration",
          "scripted-gate runtime monitoring: the merger or persister of a real writer is held at each phase boundary of file merges, in-memory merges and persist swaps (directory, plug-in and event seams) while conflicting batches land; reader-vs-abstract-index oracle while held, after release, after a further batch and after reopen",
          "For every (merge kind, phase, delete pattern) placement the background goroutine is blocked at the phase point, batches delete/update documents of exactly the segments under merge (from the Merge call's inputs), and the content must equal the abstract index at every stage; placements whose gate was not reached are counted as not realised. Skipped-merge introductions and merge introductions are read from the writer's statistics to show the paths were taken. Enumerated over the placement grid; other interleavings sampled by repetition.",
